@@ -220,7 +220,7 @@ def post_merge(ctx):
         xi = np.asarray(xi, dtype=float)
         yi = np.asarray(yi, dtype=float)
         if xi.ndim != 2 or yi.ndim != 2 or not len(xi) or not len(yi) or \
-                not _finite(xi, yi) or not _contiguous(xi) or not _contiguous(yi) \
+                not _finite(xi, yi) or not _ordered(xi) or not _ordered(yi) \
                 or len(xl) != len(xi) or len(yl) != len(yi):
             ctx.count("precondition_not_met.merge")
             return
@@ -252,7 +252,16 @@ def post_merge(ctx):
             # exact mid-point: for a sliver between adjacent floats the float
             # mid-point rounds onto a boundary
             p = (Fraction(float(a)) + Fraction(float(b))) / 2
-            if fx(p) != lx or fy(p) != ly:
+            wx, wy = fx(p), fy(p)
+            if wx is oi.GAP or wy is oi.GAP:
+                # inside an un-annotated gap of one annotation the statement
+                # prescribes nothing for that annotation
+                ctx.count("merge.pieces_in_a_gap(not judged)")
+                if wx is oi.GAP:
+                    wx = lx
+                if wy is oi.GAP:
+                    wy = ly
+            if wx != lx or wy != ly:
                 _viol(ctx, call, "util.merge_labeled_intervals", "label",
                       "piece [%r, %r] carries (%r, %r), annotations had (%r, %r)"
                       % (a, b, lx, ly, fx(p), fy(p)))
@@ -264,6 +273,11 @@ def post_merge(ctx):
         if len(out) > max(len(xi), len(yi)):
             ctx.nontrivial("merge", xi, yi)
     return post
+
+
+def _ordered(iv):
+    """Positive durations, time-ordered, non-overlapping (gaps allowed)."""
+    return bool(np.all(iv[:, 1] > iv[:, 0]) and np.all(iv[1:, 0] >= iv[:-1, 1]))
 
 
 def _contiguous(iv):
